@@ -231,10 +231,10 @@ def main(method_name, syslog):
             while not line.endswith(b'\n'):
                 piece = stdin.readline(128)
                 if not piece:
-                    break  # end of input, possibly inside the last line
+                    # end of input (parent probably exited): a line that
+                    # was not finished is not a line and is not acted on.
+                    return
                 line += piece
-            if not line:
-                return  # parent probably exited
             return line.decode('ASCII').strip()
         except IOError as e:
             # On windows, ConnectionResetError is thrown when parent process closes it's socket pair end
